@@ -114,6 +114,7 @@ class Scenario:
         self.lines = []
         self.meta = meta or {}
         self.group_names = {}
+        self.xcmds = []          # command descriptors that are not registered in any group (indices continue after the table)
 
     # ---- sizes as the library computes them
     @property
@@ -126,6 +127,10 @@ class Scenario:
 
     def cmds(self):
         return [c for _, g in self.groups for c in g]
+
+    def allcmds(self):
+        """registered commands followed by the unregistered descriptors (index space of the harness)"""
+        return self.cmds() + list(self.xcmds)
 
     # ---- scripts
     def hs(self, c, kind, fsm="c", ret=None, data=None, size=None, act=None):
@@ -238,6 +243,11 @@ class Scenario:
                     hx(c.name), _opt(c.desc), c.hw, c.hr, c.hx, c.ht, c.need_all, c.only_test, c.disable, c.implicit))
                 for v in c.vars:
                     o.append("var %d %d %d %s %d %d %s" % (v.type, v.size, v.acc, _opt(v.name), v.vr, v.vw, hx(v.mem)))
+        for c in self.xcmds:
+            o.append("xcmd %s %s %d %d %d %d %d %d %d %d" % (
+                hx(c.name), _opt(c.desc), c.hw, c.hr, c.hx, c.ht, c.need_all, c.only_test, c.disable, c.implicit))
+            for v in c.vars:
+                o.append("var %d %d %d %s %d %d %s" % (v.type, v.size, v.acc, _opt(v.name), v.vr, v.vw, hx(v.mem)))
         o.append("end_cfg")
         o.extend(self.lines)
         return "\n".join(o) + "\n"
